@@ -877,7 +877,7 @@ class World:
             w._instrument_endpoint('s', sock)
 
         hf = lambda: self.RecHandler(self, 's')
-        if o.get('adapters'):
+        if o.get('adapters') and not o.get('core_server'):       # (core_server: an Rx / ReactiveX CLIENT against a handler written with the core API)
             from . import adapters
             if self.adapter_api is None:
                 self.adapter_api = adapters.AdapterApi(self, o['adapters'])
